@@ -118,6 +118,80 @@ theorem C27_further_stores (k : Option Nat) (hk : k ≠ some 0) (a b : Nat) (ops
   unfold hasKey
   rw [lookup_mem t.recs hi.nodup r hr]; rfl
 
+/-- reopening a consistent store whose control record exists gives a consistent store whose control record exists -/
+theorem inv_reopen (t : FS) (hi : t.Inv) (hcs : t.ctrlSlot.isSome = true) :
+    t.reopen.Inv ∧ t.reopen.ctrlSlot.isSome = true := by
+  have hmem := reopen_mem t hi
+  refine ⟨⟨hi.recs_ok, hi.nodup, hi.done_ok, hi.ctrl_ok, Or.inl hcs, ?_⟩, hcs⟩
+  intro r hr
+  rw [hmem]
+  unfold hasKey
+  rw [lookup_mem t.recs hi.nodup r hr]; rfl
+
+theorem ctrl_some_run (l : List COp) : ∀ s : FS, s.ctrlSlot.isSome = true → (s.run l).ctrlSlot.isSome = true := by
+  induction l with
+  | nil => intro s h; exact h
+  | cons op l ih => intro s h; exact ih _ (ctrl_some_step s op h)
+
+/-- a life of the store after the first one: a crash point, a history, the reopen that follows the crash -/
+def _root_.Fix8Model.Store.FS.epoch (s : FS) (e : Option Nat × List COp) : FS := (({ s with budget := e.1 } : FS).run e.2).reopen
+
+/-- any number of further lives, each with its own crash point and history -/
+def _root_.Fix8Model.Store.FS.epochs (s : FS) (es : List (Option Nat × List COp)) : FS := es.foldl FS.epoch s
+
+/-- what a reopen establishes: consistent files, an existing control record, and an in-memory index that is
+exactly the index file -/
+structure Reopened (s : FS) : Prop where
+  inv : s.Inv
+  ctrl : s.ctrlSlot.isSome = true
+  mem : s.mem = s.recs
+  memCtrl : s.memCtrl = s.ctrlSlot
+
+theorem reopened_reopen (t : FS) (hi : t.Inv) (hcs : t.ctrlSlot.isSome = true) : Reopened t.reopen :=
+  ⟨(inv_reopen t hi hcs).1, hcs, reopen_mem t hi, rfl⟩
+
+theorem reopened_epochs (es : List (Option Nat × List COp)) : ∀ s : FS, Reopened s → Reopened (s.epochs es) := by
+  induction es with
+  | nil => intro s h; exact h
+  | cons e es ih =>
+    intro s h
+    have hi0 : ({ s with budget := e.1 } : FS).Inv :=
+      ⟨h.inv.recs_ok, h.inv.nodup, h.inv.done_ok, h.inv.ctrl_ok, Or.inl h.ctrl, h.inv.mem_has⟩
+    have h1 := inv_run e.2 _ hi0
+    have h2 := ctrl_some_run e.2 ({ s with budget := e.1 } : FS) h.ctrl
+    exact ih _ (reopened_reopen _ h1 h2)
+
+/-- the guarantees read off a freshly reopened store -/
+theorem reopened_safe (s : FS) (h : Reopened s) :
+    (∀ p ∈ s.done, s.get p.1 = some p.2) ∧ (∀ seq m, s.get seq = some m → (seq, m) ∈ s.started) ∧
+      s.memCtrl = s.ctrlDone := by
+  have hs := reopen_safe s h.inv
+  have hfix : s.reopen.mem = s.mem := by rw [reopen_mem s h.inv, h.mem]
+  have hget : ∀ q, s.reopen.get q = s.get q := by intro q; unfold FS.get; rw [hfix]; rfl
+  refine ⟨?_, ?_, ?_⟩
+  · intro p hp; rw [← hget]; exact hs.1 p hp
+  · intro seq m hg; rw [← hget] at hg; exact hs.2.1 seq m hg
+  · rw [h.memCtrl]; exact h.inv.ctrl_ok
+
+/-- C27 across any number of crashes: a first life `cput a b :: ops` crashed at any point `k` after its first
+control write, then any number of further lives, each crashed at its own point and reopened; after the last reopen
+every completed store (of any life) is returned byte-identical, nothing is returned that was never stored for its
+number, and the control record is the last completed control store -/
+theorem C27_repeated_crashes (k : Option Nat) (hk : k ≠ some 0) (a b : Nat) (ops : List COp)
+    (es : List (Option Nat × List COp)) :
+    let s := (afterCrash k a b ops).epochs es
+    (∀ p ∈ s.done, s.get p.1 = some p.2) ∧ (∀ seq m, s.get seq = some m → (seq, m) ∈ s.started) ∧
+      s.memCtrl = s.ctrlDone := by
+  have h0 : (({ FS.init with budget := k } : FS).cput a b).1.ctrlSlot.isSome = true := cput_ctrl_some _ a b hk
+  have hi := inv_run ops _ (inv_first k a b)
+  have hcs := ctrl_some_run ops _ h0
+  exact reopened_safe _ (reopened_epochs es _ (reopened_reopen _ hi hcs))
+
+/-- non-vacuity: two further lives; the second store of the first life is lost to the crash, a store of the
+second life is cut between its data write and its index write, the third life stores it again -/
+example : let s := (afterCrash (some 4) 1 1 [.put 2 [65], .put 3 [66, 67]]).epochs [(some 1, [COp.put 3 [70], COp.cput 9 9]), (none, [COp.put 3 [71], COp.cput 5 6])]
+    s.done = [(2, [65]), (3, [71])] ∧ s.get 2 = some [65] ∧ s.get 3 = some [71] ∧ s.memCtrl = some (5, 6) := by decide
+
 /-- known finding (excluded above): a message stored before any control record loses its index
 slot when the first control record is written -/
 theorem C27_finding_message_before_control :
